@@ -160,6 +160,31 @@ def _bad(node, what, *expected):
                                     if node is not None else '<missing>'))
 
 
+def _closed(d, expr, stop):
+  """expr with every single-definition local outside `stop` replaced by its
+  definition (repeatedly): the closed form of a value over the names in
+  `stop` and the function's inputs"""
+  import copy
+
+  class S(ast.NodeTransformer):
+    def __init__(self):
+      self.n = 0
+
+    def visit_Name(self, n):
+      if isinstance(n.ctx, ast.Load) and n.id not in stop and len(
+          d.get(n.id, ())) == 1:
+        self.n += 1
+        return copy.deepcopy(d[n.id][0].value)
+      return n
+  e = copy.deepcopy(expr)
+  for _ in range(6):
+    sub = S()
+    e = sub.visit(e)
+    if not sub.n:
+      break
+  return ast.fix_missing_locations(e)
+
+
 def _val(d, name, k=0):
   v = d.get(name)
   if not v or len(v) <= k:
@@ -432,14 +457,14 @@ def _simplex(prog, fn):
       p3.append('sorting over axis %s instead of the coordinate axis -1' % ax)
   items.append(('sort-pairing', 'argsort and sort: same tensor, DESCENDING',
                 p3))
-  p4 = _bad(_val(d, 'sorted_inputs_padded_left'), 'left padding',
+  # by value: the locals the two padded sequences pass through (if any) are
+  # replaced by their definitions before the comparison
+  p4 = _bad(_closed(d, _val(d, 'weights'), {'sorted_inputs',
+                                            'no_padding_dims'}),
+            'simplex weights',
             'tf.pad(sorted_inputs, no_padding_dims + [[1, 0]], '
-            'constant_values=1.0)')
-  p4 += _bad(_val(d, 'sorted_inputs_padded_right'), 'right padding',
-             'tf.pad(sorted_inputs, no_padding_dims + [[0, 1]], '
-             'constant_values=0.0)')
-  p4 += _bad(_val(d, 'weights'), 'simplex weights',
-             'sorted_inputs_padded_left - sorted_inputs_padded_right')
+            'constant_values=1.0) - tf.pad(sorted_inputs, no_padding_dims + '
+            '[[0, 1]], constant_values=0.0)')
   items.append(('telescoping', 'weights = [1, x(1), ..] - [x(1), .., 0]: '
                 'non-negative, summing to 1', p4))
   p5 = _bad(_val(d, 'sorted_strides'), 'sorted strides',
